@@ -138,6 +138,28 @@ pub fn main() {
                     Err(e) => json!({"harness_error": format!("prepare deleted cwd {}: {}", dir, e)}),
                 }
             },
+            // Stdfs::abs of relative arguments from a cwd whose own name is not valid UTF-8 (a Latin-1 directory name)
+            "abs_std_oddcwd" => {
+                use std::os::unix::ffi::{OsStrExt, OsStringExt};
+                let dir = req["dir"].as_str().unwrap_or("/nonexistent");
+                let mut odd = dir.as_bytes().to_vec();
+                odd.extend_from_slice(b"/\xe9t\xe9");
+                let odd = std::path::PathBuf::from(std::ffi::OsString::from_vec(odd));
+                let prep = std::fs::create_dir_all(&odd).and_then(|_| std::env::set_current_dir(&odd));
+                match prep {
+                    Ok(_) => {
+                        let list: Vec<Value> = req["paths"].as_array().cloned().unwrap_or_default().iter().map(|p| {
+                            let p = p.as_str().unwrap_or("").to_string();
+                            res_path(catch(|| Stdfs::abs(&p)))
+                        }).collect();
+                        let cwd = std::env::current_dir().map(|c| c.as_os_str().as_bytes().iter().map(|b| format!("{:02x}", b)).collect::<String>()).unwrap_or_default();
+                        let _ = std::env::set_current_dir("/");
+                        let _ = std::fs::remove_dir_all(dir);
+                        json!({"list": list, "cwd_bytes": cwd})
+                    },
+                    Err(e) => json!({"harness_error": format!("prepare odd cwd under {}: {}", dir, e)}),
+                }
+            },
             "xdg" => json!({
                 "home_dir": res_path(catch(user::home_dir)),
                 "config_dir": res_path(catch(user::config_dir)),
